@@ -120,7 +120,7 @@ def op_event(tid, cls, p, op, arg, refs, history):
 def op_of_label(label):
     name, args = tlc.parse_label(label)
     if name == 'SetData':
-        return name, {'data': args[0], 'N': D.DATA_N[args[0] - 1]}
+        return name, {'data': args[0], 'N': D.DATA_N[args[0] - 1], 'dt': None}
     if name in ('Call', 'ReadPsd'):
         return name, 0
     return name, args[0]
@@ -168,6 +168,8 @@ def walk_graph(chk, cls, dt, nodes, init, edges, rec, refs, rng, max_edges):
             if not tree and rng.random() > keep:
                 continue
             op, arg = op_of_label(lab)
+            if op == 'SetData':
+                arg['dt'] = dt
             if op == 'SetMaOrder' and cls.ma == (0,):
                 continue      # the class has no MA order (the model keeps a dummy 0)
             o = D.clone(pu)
@@ -207,13 +209,15 @@ def walk_graph(chk, cls, dt, nodes, init, edges, rec, refs, rng, max_edges):
 # ---------------------------------------------------------------------------- random walks
 def random_ops(cls, dt, rng):
     ops = []
-    for d in (1, 2):
-        ops.append(('SetData', {'data': d, 'N': D.DATA_N[d - 1]}))
+    # data of both datatypes: a data assignment may change real <-> complex (incl. the same samples declared complex)
+    for ddt in ('real', 'complex'):
+        for d in D.TOKENS[ddt]:
+            ops.append(('SetData', {'data': d, 'N': D.token_len(ddt, d), 'dt': ddt}))
     for x in cls.nffts:
         ops.append(('SetNFFT', x))
     for v in (1024, 2048, 512):
         ops.append(('SetSampling', v))
-    for s in (['onesided'] if dt == 'real' else []) + ['twosided', 'centerdc', 'default']:
+    for s in ['onesided', 'twosided', 'centerdc', 'default']:
         ops.append(('SetSides', s))
     for b in (True, False):
         ops.append(('SetScale', b))
@@ -238,9 +242,34 @@ def initial_attrs(cls, dt, rng):
             'lag': rng.choice(cls.lags), 'ar': rng.choice(cls.ar), 'ma': rng.choice(cls.ma)}
 
 
+def directed_scripts(cls, dt):
+    """short histories every class must survive (each found its way here through a seeded change)"""
+    other = 'complex' if dt == 'real' else 'real'
+    same_values = {'data': 3, 'N': D.token_len('complex', 3), 'dt': 'complex'} if dt == 'real' else \
+                  {'data': 1, 'N': D.token_len('real', 1), 'dt': 'real'}
+    back = {'data': 1, 'N': D.token_len(dt, 1), 'dt': dt}
+    rd = ['ReadPsd', 0]
+    s = [[rd, ['SetData', same_values], rd, ['SetData', back], rd],
+         [rd, ['SetNFFT', 0], rd, ['SetSides', 'centerdc'], ['SetNFFT', 0], rd, ['SetNFFT', 1], ['SetSides', 'centerdc'], ['SetNFFT', 1], rd],
+         [rd, ['SetSampling', 2048], rd, ['SetSampling', 2048], rd, ['SetScale', True], rd, ['SetScale', True], rd]]
+    if cls.kind == 'parametric':
+        s.append([rd, ['SetArOrder', cls.ar[-1]], rd, ['SetArOrder', cls.ar[0]], rd])
+        if cls.ma != (0,):
+            s.append([rd, ['SetMaOrder', cls.ma[-1]], rd, ['SetMaOrder', cls.ma[0]], rd])
+        if cls.name == 'parma':
+            s.append([rd, ['SetLag', cls.lags[-1]], rd, ['SetLag', cls.lags[0]], rd])
+    if cls.kind == 'fourier':
+        s.append([rd, ['SetWindow', cls.windows[-1]], rd, ['SetLag', cls.lags[-1]], rd, ['SetDetrend', cls.detrends[-1]], rd])
+    return s
+
+
 def random_walks(chk, cls, dt, rec, refs, rng, nwalks, length):
     ops = random_ops(cls, dt, rng)
-    for _w in range(nwalks):
+    scripts = directed_scripts(cls, dt)
+    # every directed script twice: with python numbers and with numpy scalars as arguments
+    plan = [(sc, np_) for sc in scripts for np_ in (False, True)] + [(None, bool(i % 3 == 2)) for i in range(nwalks)]
+    for fixed, use_numpy in plan:
+        D.NUMPY_SCALARS[0] = use_numpy
         at = initial_attrs(cls, dt, rng)
         ok, p = call_guard(cls.ctor, at)
         if not ok:
@@ -250,8 +279,13 @@ def random_walks(chk, cls, dt, rec, refs, rng, nwalks, length):
         meta = {'cls': cls.name, 'dt': dt, 'init': at, 'script': script}
         rec.add(snap_event(tid, cls, p), meta)
         history = [D.attrs_of(p, cls)]
-        for _s in range(length):
-            op, arg = rng.choice(ops)
+        for _s in range(length if fixed is None else len(fixed)):
+            if fixed is not None:
+                op, arg = fixed[_s]
+            else:
+                op, arg = rng.choice(ops)
+                while op == 'SetSides' and arg == 'onesided' and p.datatype == 'complex':
+                    op, arg = rng.choice(ops)      # one-sided is not a layout of complex data (rejected: C06)
             script.append([op, arg])
             ev = op_event(tid, cls, p, op, arg, refs, history)
             rec.add(ev, dict(meta, upto=len(script)))
@@ -259,7 +293,9 @@ def random_walks(chk, cls, dt, rec, refs, rng, nwalks, length):
                 break
             history.append(ev['post'])
         chk.traces += 1
+    D.NUMPY_SCALARS[0] = False
     chk.count('walks-%s-%s' % (cls.name, dt), 'walks', nwalks)
+    chk.count('walks-%s-%s' % (cls.name, dt), 'directed-scripts', 2 * len(scripts))
 
 
 # ---------------------------------------------------------------------------- validation by TLC
